@@ -51,7 +51,7 @@ DEFAULTS = {
     "thorough": {"budget_s": 900, "chunk": 30, "per_run_wall": 300,
                  "minimise_s": 300},
 }
-REQUIRED_PROBES = ["index_reused_same_points", "recur_swapped", "recur_perturbed",
+REQUIRED_PROBES = ["spatial_only", "recur_mutated_in_place", "index_reused_same_points", "recur_swapped", "recur_perturbed",
                    "size_ratio_above_magnitude_factor", "gridded_layout",
                    "nan_positions", "only_pair_is_first_first", "window_cuts",
                    "binned_path", "empty_answer", "unit_string_thresholds"]
@@ -170,7 +170,8 @@ def gen_workload(tape):
     calls = []
     for k in range(2 if bigrun else tape.count(2, 7, "ncalls", (3, 4))):
         c = {}
-        mode = tape.pick(["fresh", "repeat", "swap", "perturb", "fresh"], "cmode") if k else "fresh"
+        mode = tape.pick(["fresh", "repeat", "swap", "perturb", "fresh", "mutate"],
+                         "cmode") if k else "fresh"
         c["mode"] = mode
         c["p"] = tape.choice(npool, "p")
         c["s"] = tape.choice(npool, "s")
@@ -191,6 +192,12 @@ def gen_workload(tape):
         c["magnitude_factor"] = tape.pick([10, 1, 2, 100], "mf")
         c["leaf_size"] = tape.pick([40, 1, 3], "leaf")
         c["named"] = tape.flag("named", 1, 2)
+        # spatial collocations only (max_interval=None; start/end do not apply)
+        c["spatial_only"] = tape.flag("spatial_only", 1, 6)
+        if bigrun:
+            c["spatial_only"] = False
+        if c["spatial_only"]:
+            c["window"] = None
         calls.append(c)
     w["calls"] = calls
     w["perm"] = tape.pick(["random", "reverse", "identity", "rot1"], "perm")
@@ -236,21 +243,34 @@ def run_one(tape, only=None):
     coll = _T["Collocator"]()
     prev = None
     history = []
+    live = {}          # pool index -> (dataset, flat arrays) kept alive between calls
     with patched((gmod, "np", NpProxy(chooser))), warnings.catch_warnings():
         warnings.simplefilter("ignore")
         for k, c in enumerate(w["calls"]):
             mode = c["mode"]
             pi, si = c["p"], c["s"]
-            if mode in ("repeat", "perturb") and prev is not None:
+            if mode in ("repeat", "perturb", "mutate") and prev is not None:
                 pi, si = prev
             elif mode == "swap" and prev is not None:
                 pi, si = prev[1], prev[0]
                 probe("recur_swapped")
             dp, ds_ = w["pool"][pi], w["pool"][si]
-            P, fp = materialise(dp, c["perturb"])
-            # perturb both sides (in opposite directions) so that whichever side
-            # the index is built from differs slightly from the previous call
-            S, fs = materialise(ds_, -c["perturb"])
+            if mode == "mutate" and pi in live and si in live and pi != si \
+                    and not dp.get("big") and not ds_.get("big"):
+                # the caller updates its own arrays in place and calls again
+                # with the very same dataset objects
+                P, fp = live[pi]
+                S, fs = live[si]
+                for ds_obj, flat, d in ((P, fp, 0.013), (S, fs, -0.011)):
+                    ds_obj["lat"].values[...] = np.clip(ds_obj["lat"].values + d, -90, 90)
+                    flat["lat"] = ds_obj["lat"].values.ravel().copy()
+                probe("recur_mutated_in_place")
+            else:
+                P, fp = materialise(dp, c["perturb"])
+                # perturb both sides (in opposite directions) so that whichever
+                # side the index is built from differs from the previous call
+                S, fs = materialise(ds_, -c["perturb"])
+                live[pi], live[si] = (P, fp), (S, fs)
             if mode == "perturb":
                 probe("recur_perturbed")
             if mode == "repeat" and prev is not None:
@@ -295,7 +315,11 @@ def run_one(tape, only=None):
                 probe("window_cuts")
             else:
                 inwin = np.ones_like(valid)
-            hit = valid & inwin & (dt < mi) & (D <= md)
+            if c["spatial_only"]:
+                hit = valid & (D <= md)
+                probe("spatial_only")
+            else:
+                hit = valid & inwin & (dt < mi) & (D <= md)
             exp = {(int(fp["id"][i]), int(fs["id"][j])) for i, j in np.argwhere(hit & ~border)}
             maybe = {(int(fp["id"][i]), int(fs["id"][j])) for i, j in np.argwhere(hit & border)}
             kw = dict(max_interval={"number": mi, "string": f"{mi} s",
@@ -306,6 +330,8 @@ def run_one(tape, only=None):
                       leaf_size=c["leaf_size"])
             if c["mi_as"] != "number" or c["md_as"] != "number":
                 probe("unit_string_thresholds")
+            if c["spatial_only"]:
+                kw["max_interval"] = None
             if c["window"]:
                 kw["start"] = BASE + timedelta(seconds=c["window"][0])
                 kw["end"] = BASE + timedelta(seconds=c["window"][1])
